@@ -229,6 +229,7 @@ func (m *MTProto) Reconnect() error {
 		return errors.Wrap(err, "disconnecting")
 	}
 
+	verifYield("reconnecting", 0)
 	err = m.CreateConnection()
 	return errors.Wrap(err, "recreating connection")
 }
